@@ -365,3 +365,8 @@ def run_sharded(items, worker, nshards=None):
 VK_WRAPS = ["clock_gettime", "gettimeofday", "epoll_create", "epoll_create1", "eventfd", "syscall", "pipe",
             "timerfd_create", "timerfd_settime", "epoll_ctl", "epoll_wait", "epoll_pwait2", "poll", "ppoll",
             "read", "write", "close", "fcntl", "setsockopt"]
+
+MT_WRAPS = VK_WRAPS + ["pthread_create", "pthread_join", "pthread_detach", "pthread_key_create", "pthread_getspecific",
+                       "pthread_setspecific", "pthread_mutex_init", "pthread_mutex_destroy", "pthread_mutex_lock",
+                       "pthread_mutex_unlock", "pthread_spin_init", "pthread_spin_lock", "pthread_spin_unlock",
+                       "sigaction", "pthread_sigmask", "pthread_exit", "pthread_atfork", "getpid", "fork", "wait4", "kill"]
